@@ -37,12 +37,17 @@
     iteration and the activation are left (fall-through, continue, break, return, raise, generator close);
     `C06_rewritten_loop_markers_balanced` for the REWRITTEN function, `C06_generic_capture_symmetric` shows
     the hypothesis on the capture set holds for the generic capture.
-  Not proved: that `#value` is delivered exactly once per normal completion (it is FALSE: findings F7c / F7d);
-  the pairing of `#yield` / `#receive` over whole runs is explored by the stream grammar oracle.
+  * `C06_yield_receive_paired` (Proofs/YieldPair.lean, another instance of the invariant theorem, whose kit
+    treats a `yield` expression as one step): along the whole activation no `#receive` event occurs without the
+    `#yield` it answers directly before it (among the two kinds of events) — whatever the driver does (next,
+    send, throw, close, drop); `C06_rewritten_yield_receive_paired` for the REWRITTEN function.  That a yield
+    resumed by a value does report `#receive` is `C06_yield_then_receive`.
+  Not proved: that `#value` is delivered exactly once per normal completion (it is FALSE: findings F7c / F7d).
 -/
 import PteraModel.Proofs.PyLiteSpec
 import PteraModel.Proofs.InvEvents
 import PteraModel.Proofs.Balance
+import PteraModel.Proofs.YieldPair
 namespace Ptera.Props.C06
 open Ptera.Py Ptera.Sem
 
@@ -229,6 +234,22 @@ theorem C06_loop_markers_balanced (sc : String → Bool) (cfg : Cfg)
       (ctlFatal (runRef (recEnv sc cfg) fuel f st0).1 = false → Neutral x w) :=
   loop_markers_balanced sc cfg hE hX hEr hsym fuel f hf st0 h0 x
 
+/-- hence: unless the activation is abandoned, exactly as many `#endloop_x` as `#loop_x` events — one end per
+    iteration begun, however it was left -/
+theorem C06_one_end_per_iteration (sc : String → Bool) (cfg : Cfg)
+    (hE : shouldInstr cfg "#enter" ["enter"] = true) (hX : shouldInstr cfg "#exit" ["exit"] = true)
+    (hEr : shouldInstr cfg "#error" [] = true)
+    (hsym : ∀ y, shouldInstr cfg ("#endloop_" ++ y) [] = shouldInstr cfg ("#loop_" ++ y) [])
+    (fuel : Nat) (f : FunDef) (hf : coreF f = true) (st0 : St PyLite.World PyLite.HState)
+    (h0 : MarkerFree PyLite.Good PyLite.WInv st0) (hnone : st0.hs.events = []) (x : String)
+    (hfin : ctlFatal (runRef (recEnv sc cfg) fuel f st0).1 = false) :
+    (evNames (runRef (recEnv sc cfg) fuel f st0).2).count ("#loop_" ++ x)
+      = (evNames (runRef (recEnv sc cfg) fuel f st0).2).count ("#endloop_" ++ x) := by
+  obtain ⟨w, h1, _, h3⟩ := loop_markers_balanced sc cfg hE hX hEr hsym fuel f hf st0 h0 x
+  have : evNames st0 = [] := by simp [evNames, hnone]
+  rw [h1, this, List.nil_append]
+  exact neutral_counts (h3 hfin)
+
 /-- … and along an activation of the rewritten function -/
 theorem C06_rewritten_loop_markers_balanced (cfg : Cfg)
     (hE : shouldInstr cfg "#enter" ["enter"] = true) (hX : shouldInstr cfg "#exit" ["exit"] = true)
@@ -245,6 +266,36 @@ theorem C06_rewritten_loop_markers_balanced (cfg : Cfg)
   unfold evNames
   rw [e1, o1.hs]
   exact loop_markers_balanced (scopeRef cfg f) cfg hE hX hEr hsym fuel f hf st0 h0 x
+
+/-- `#yield` / `#receive` are paired along a whole activation of the reference semantics -/
+theorem C06_yield_receive_paired (sc : String → Bool) (cfg : Cfg)
+    (hE : shouldInstr cfg "#enter" ["enter"] = true) (hX : shouldInstr cfg "#exit" ["exit"] = true)
+    (hEr : shouldInstr cfg "#error" [] = true)
+    (hYR : shouldInstr cfg "#receive" ["enter"] = true → shouldInstr cfg "#yield" ["exit"] = true)
+    (fuel : Nat) (f : FunDef) (hf : coreF f = true) (st0 : St PyLite.World PyLite.HState)
+    (h0 : MarkerFree PyLite.Good PyLite.WInv st0) :
+    ∃ w q, evNames (runRef (recEnv sc cfg) fuel f st0).2 = evNames st0 ++ w ∧ yr false w = some q :=
+  yield_receive_paired sc cfg hE hX hEr hYR fuel f hf st0 h0
+
+/-- … and of the rewritten function -/
+theorem C06_rewritten_yield_receive_paired (cfg : Cfg)
+    (hE : shouldInstr cfg "#enter" ["enter"] = true) (hX : shouldInstr cfg "#exit" ["exit"] = true)
+    (hEr : shouldInstr cfg "#error" [] = true)
+    (hYR : shouldInstr cfg "#receive" ["enter"] = true → shouldInstr cfg "#yield" ["exit"] = true)
+    (fuel : Nat) (f : FunDef) (hf : coreF f = true) (st0 : St PyLite.World PyLite.HState)
+    (h0 : MarkerFree PyLite.Good PyLite.WInv st0) (hext : ∀ y ∈ (collect f).external, st0.loc y = none) :
+    ∃ w q, evNames (runInstr (ctxOf PyLite.hostObs cfg f fuel).envI fuel (instrument cfg f) st0).2 = evNames st0 ++ w
+      ∧ yr false w = some q := by
+  obtain ⟨_, o1⟩ := instrument_refines PyLite.hostObs cfg f fuel hf
+    (libSpec_of_host PyLite.hostObs PyLite.hostSpecObs cfg f fuel hf) st0 hext
+  unfold evNames
+  rw [o1.hs]
+  exact yield_receive_paired (scopeRef cfg f) cfg hE hX hEr hYR fuel f hf st0 h0
+
+/-- the automaton: an answered yield, an unanswered one followed by the next, a `#receive` out of the blue -/
+example : yr false ["#enter", "#yield", "#receive", "a", "#yield", "#yield", "#receive", "#exit"] = some false
+    ∧ yr false ["#yield", "#receive", "#yield"] = some true
+    ∧ yr false ["#enter", "#receive"] = none := by decide
 
 /-- the hypothesis on the capture set holds for the generic capture (everything is captured) -/
 theorem C06_generic_capture_symmetric (y : String) :
